@@ -1041,6 +1041,7 @@ package analysis
 //@   loop 1: invariant res.Ref.String() != "" ==> ("#" + path.Join(prefix, "responses", strconv.Itoa(k))) in dom(s.references.responses) && s.references.responses["#" + path.Join(prefix, "responses", strconv.Itoa(k))] == res.Ref && ("#" + path.Join(prefix, "responses", strconv.Itoa(k))) in dom(s.references.allRefs)
 
 
+
 // ---------------------------------------------------------------- analyzer.go: the schema index (C12)
 // generated by /verif/tools/gen_schemas_schema.py
 // schAt(k, sv, prefix, name): the schema value sv, indexed under prefix/name, or one of its sub-schemas at any depth,
@@ -1115,6 +1116,36 @@ package analysis
 //@   loop 7: invariant (schema.Items != nil && schema.Items.Schema != nil ==> forall k string :: schAt(k, *schema.Items.Schema, suri(prefix, name), "items") ==> k in dom(s.allSchemas))
 //@   loop 7: invariant schema.Items != nil
 //@   loop 7: invariant (forall i in 0..idx :: forall k string :: schAt(k, schema.Items.Schemas[i], path.Join(suri(prefix, name), "items"), strconv.Itoa(i)) ==> k in dom(s.allSchemas))
+
+// schEntry(k, e, sv, prefix, name): e is the index entry describing, under pointer k, the schema sv or one of its sub-schemas:
+// its name, the $ref built from the pointer, the top-level flag and a schema pointer whose target equals that schema
+//@ fun schEntry(k string, e SchemaRef, sv spec.Schema, prefix string, name string) bool = (k == "#" + suri(prefix, name) && e.Name == name && e.Ref == spec.MustCreateRef("#" + suri(prefix, name)) && e.TopLevel == (prefix == "/definitions") && e.Schema != nil && *e.Schema == sv) || (exists n in dom(sv.Definitions) :: schEntry(k, e, sv.Definitions[n], path.Join(suri(prefix, name), "definitions"), n)) || (exists n in dom(sv.Properties) :: schEntry(k, e, sv.Properties[n], path.Join(suri(prefix, name), "properties"), n)) || (exists n in dom(sv.PatternProperties) :: schEntry(k, e, sv.PatternProperties[n], path.Join(suri(prefix, name), "patternProperties"), n)) || (exists i in 0..len(sv.AllOf) :: schEntry(k, e, sv.AllOf[i], path.Join(suri(prefix, name), "allOf"), strconv.Itoa(i))) || (exists i in 0..len(sv.AnyOf) :: schEntry(k, e, sv.AnyOf[i], path.Join(suri(prefix, name), "anyOf"), strconv.Itoa(i))) || (exists i in 0..len(sv.OneOf) :: schEntry(k, e, sv.OneOf[i], path.Join(suri(prefix, name), "oneOf"), strconv.Itoa(i))) || (sv.Not != nil && schEntry(k, e, *sv.Not, suri(prefix, name), "not")) || (sv.AdditionalProperties != nil && sv.AdditionalProperties.Schema != nil && schEntry(k, e, *sv.AdditionalProperties.Schema, suri(prefix, name), "additionalProperties")) || (sv.AdditionalItems != nil && sv.AdditionalItems.Schema != nil && schEntry(k, e, *sv.AdditionalItems.Schema, suri(prefix, name), "additionalItems")) || (sv.Items != nil && sv.Items.Schema != nil && schEntry(k, e, *sv.Items.Schema, suri(prefix, name), "items")) || (sv.Items != nil && (exists i in 0..len(sv.Items.Schemas) :: schEntry(k, e, sv.Items.Schemas[i], path.Join(suri(prefix, name), "items"), strconv.Itoa(i))))
+
+//@ func (s *Spec) analyzeSchema(name, schema, prefix)
+//@   aspect schentry
+//@   requires s != nil && schema != nil && idxMaps(s)
+//@   modifies map s.allSchemas, map s.allOfs, map s.references.schemas, map s.references.allRefs, map s.patterns.schemas, map s.patterns.allPatterns, map s.enums.schemas, map s.enums.allEnums
+//@   ensures forall k in dom(s.allSchemas) :: (old(k in dom(s.allSchemas)) && s.allSchemas[k] == old(s.allSchemas[k])) || schEntry(k, s.allSchemas[k], *schema, prefix, name)
+//@   loop 1: invariant forall k in dom(s.allSchemas) :: (old(k in dom(s.allSchemas)) && s.allSchemas[k] == old(s.allSchemas[k])) || schEntry(k, s.allSchemas[k], *schema, prefix, name)
+//@   loop 2: invariant forall k in dom(s.allSchemas) :: (old(k in dom(s.allSchemas)) && s.allSchemas[k] == old(s.allSchemas[k])) || schEntry(k, s.allSchemas[k], *schema, prefix, name)
+//@   loop 3: invariant forall k in dom(s.allSchemas) :: (old(k in dom(s.allSchemas)) && s.allSchemas[k] == old(s.allSchemas[k])) || schEntry(k, s.allSchemas[k], *schema, prefix, name)
+//@   loop 4: invariant forall k in dom(s.allSchemas) :: (old(k in dom(s.allSchemas)) && s.allSchemas[k] == old(s.allSchemas[k])) || schEntry(k, s.allSchemas[k], *schema, prefix, name)
+//@   loop 5: invariant forall k in dom(s.allSchemas) :: (old(k in dom(s.allSchemas)) && s.allSchemas[k] == old(s.allSchemas[k])) || schEntry(k, s.allSchemas[k], *schema, prefix, name)
+//@   loop 6: invariant forall k in dom(s.allSchemas) :: (old(k in dom(s.allSchemas)) && s.allSchemas[k] == old(s.allSchemas[k])) || schEntry(k, s.allSchemas[k], *schema, prefix, name)
+//@   loop 7: invariant forall k in dom(s.allSchemas) :: (old(k in dom(s.allSchemas)) && s.allSchemas[k] == old(s.allSchemas[k])) || schEntry(k, s.allSchemas[k], *schema, prefix, name)
+
+//@ func (s *Spec) analyzeSchema(name, schema, prefix)
+//@   aspect allofsound
+//@   requires s != nil && schema != nil && idxMaps(s)
+//@   modifies map s.allSchemas, map s.allOfs, map s.references.schemas, map s.references.allRefs, map s.patterns.schemas, map s.patterns.allPatterns, map s.enums.schemas, map s.enums.allEnums
+//@   ensures forall k in dom(s.allOfs) :: (old(k in dom(s.allOfs)) && s.allOfs[k] == old(s.allOfs[k])) || (schEntry(k, s.allOfs[k], *schema, prefix, name) && len(s.allOfs[k].Schema.AllOf) > 0)
+//@   loop 1: invariant forall k in dom(s.allOfs) :: (old(k in dom(s.allOfs)) && s.allOfs[k] == old(s.allOfs[k])) || (schEntry(k, s.allOfs[k], *schema, prefix, name) && len(s.allOfs[k].Schema.AllOf) > 0)
+//@   loop 2: invariant forall k in dom(s.allOfs) :: (old(k in dom(s.allOfs)) && s.allOfs[k] == old(s.allOfs[k])) || (schEntry(k, s.allOfs[k], *schema, prefix, name) && len(s.allOfs[k].Schema.AllOf) > 0)
+//@   loop 3: invariant forall k in dom(s.allOfs) :: (old(k in dom(s.allOfs)) && s.allOfs[k] == old(s.allOfs[k])) || (schEntry(k, s.allOfs[k], *schema, prefix, name) && len(s.allOfs[k].Schema.AllOf) > 0)
+//@   loop 4: invariant forall k in dom(s.allOfs) :: (old(k in dom(s.allOfs)) && s.allOfs[k] == old(s.allOfs[k])) || (schEntry(k, s.allOfs[k], *schema, prefix, name) && len(s.allOfs[k].Schema.AllOf) > 0)
+//@   loop 5: invariant forall k in dom(s.allOfs) :: (old(k in dom(s.allOfs)) && s.allOfs[k] == old(s.allOfs[k])) || (schEntry(k, s.allOfs[k], *schema, prefix, name) && len(s.allOfs[k].Schema.AllOf) > 0)
+//@   loop 6: invariant forall k in dom(s.allOfs) :: (old(k in dom(s.allOfs)) && s.allOfs[k] == old(s.allOfs[k])) || (schEntry(k, s.allOfs[k], *schema, prefix, name) && len(s.allOfs[k].Schema.AllOf) > 0)
+//@   loop 7: invariant forall k in dom(s.allOfs) :: (old(k in dom(s.allOfs)) && s.allOfs[k] == old(s.allOfs[k])) || (schEntry(k, s.allOfs[k], *schema, prefix, name) && len(s.allOfs[k].Schema.AllOf) > 0)
 
 // soundness as a separate aspect (keeps each query small): every entry is old or belongs to the schema tree
 //@ func (s *Spec) analyzeSchema(name, schema, prefix)
